@@ -471,8 +471,34 @@ def rule_M5(repo: Repo) -> RuleResult:
                     raise AnalysisError(f"M5: {f.qualname} no longer unpacks (keys, first_chunk_in, mask_chunks)")
         if gets_offset is None:
             continue
+        parent: Dict[int, ast.AST] = {}
+        for a in ast.walk(f.node):
+            for c in ast.iter_child_nodes(a):
+                parent[id(c)] = a
         for n in walk_no_nested(f.node):
-            if isinstance(n, ast.Subscript) and attr_chain(n.value) == ("self", "_group_key_pointers"):
+            # the pointer list used as a whole sequence (iterated, zipped, aliased): it must start at the first chunk inside the mask
+            if isinstance(n, ast.Attribute) and attr_chain(n) == ("self", "_group_key_pointers") and isinstance(n.ctx, ast.Load):
+                par = parent.get(id(n))
+                if isinstance(par, ast.Subscript) and par.value is n:
+                    if isinstance(par.slice, ast.Slice):
+                        n_sites += 1
+                        if par.slice.lower is not None and norm(par.slice.lower) == gets_offset and par.slice.upper is None:
+                            res.ok(f, par, norm(par), f"the pointer list from chunk {gets_offset} on")
+                        else:
+                            res.bad(f, par, norm(par), f"the pointer list is sliced by {norm(par.slice)} instead of [{gets_offset}:]: chunk i of the "
+                                                       f"masked keys is chunk {gets_offset}+i of the grouping")
+                    continue                     # indexed lookups: below
+                if isinstance(par, ast.Compare) or (isinstance(par, ast.Call) and norm(par.func) == "len"):
+                    continue                     # `is None` tests, len()
+                if isinstance(par, ast.Assign) and par.value is n and all(isinstance(t, ast.Attribute) for t in par.targets):
+                    continue
+                n_sites += 1
+                res.bad(f, n, f"{f.qualname}: {norm(par)[:80] if par is not None else norm(n)}",
+                        f"the pointer tables are walked from chunk 0 (iterated / zipped / aliased as a whole) in a function whose key "
+                        f"chunks start at chunk {gets_offset} of the grouping: with a slice mask that skips leading chunks every partial "
+                        f"result is scattered onto the labels of an earlier chunk")
+        for n in walk_no_nested(f.node):
+            if isinstance(n, ast.Subscript) and attr_chain(n.value) == ("self", "_group_key_pointers") and not isinstance(n.slice, ast.Slice):
                 n_sites += 1
                 sl = n.slice
                 names = {x.id for x in ast.walk(sl) if isinstance(x, ast.Name)}
